@@ -57,7 +57,7 @@ CfgOf(c) == [name |-> c.name, nlevels |-> c.nlevels,
                              variant |-> c.levels[i].variant, cls |-> c.levels[i].cls]],
              limit |-> c.limit, hib |-> c.hib, gsc |-> c.gsc, gscn |-> c.gscn, gscw |-> c.gscw,
              max |-> c.max, sprout |-> c.sprout, generator |-> c.generator, haslocal |-> c.haslocal, cutoff |-> c.cutoff,
-             idlecheck |-> c.idlecheck, localmethod |-> IF c.sprout = "nbc_local" THEN 1 ELSE 0]
+             idlecheck |-> c.idlecheck, manual |-> c.manual, localmethod |-> IF c.sprout = "nbc_local" THEN 1 ELSE 0]
 
 -----------------------------------------------------------------------------
 (* Pre: model steps that precede the observation point.  Returns [st, errs] *)
@@ -98,12 +98,15 @@ Force(s, e) ==
 
 \* A run that goes on without asking the global condition at the loop head (tree.py:128) is accepted as long as
 \* no shipped condition holds at that boundary: "returns at the first metaepoch boundary where it does [hold]".
+\* Manual driving (cfg.manual = 1: the caller invokes run_step() itself, possibly after run() has returned) is outside
+\* the sentences of C05 about run(); every other clause keeps applying to what the tree does in those steps.
+Manual(s) == s.cfg.manual = 1
 ImplicitLoopHead(s, e) ==
-    IF s.pc \in {"loop", "sprout"} /\ e.e \in {"gsc", "lsc"} /\ (e.e = "lsc" \/ e.by # "run")
-    THEN LET s0 == IF s.pc = "sprout" THEN [s EXCEPT !.pc = "loop"] ELSE s
+    IF (s.pc \in {"loop", "sprout"} \/ (Manual(s) /\ s.pc = "done")) /\ e.e \in {"gsc", "lsc"} /\ (e.e = "lsc" \/ e.by # "run")
+    THEN LET s0 == IF s.pc \in {"sprout", "done"} THEN [s EXCEPT !.pc = "loop"] ELSE s
              s1 == InitAll(s0, e.b)
          IN R(DoLoopCheck(s1, FALSE),
-              IF GscModelled(s1) /\ GscVal(s1) THEN {"C05_ReturnsAtFirstBoundary"} ELSE {})
+              IF ~Manual(s) /\ GscModelled(s1) /\ GscVal(s1) THEN {"C05_ReturnsAtFirstBoundary"} ELSE {})
     ELSE R(s, {})
 
 PreAt(s, e) ==
@@ -134,7 +137,7 @@ PreAt(s, e) ==
       [] e.e = "sprout" ->
            IF EnSprout(s) THEN R(s, {}) ELSE R(Force(s, e), {"Desync"})
       [] e.e = "end" ->     \* run() returned: the global condition must have been seen true at a metaepoch boundary
-           R(s, IF s.pc = "done" \/ (s.pc = "loop" /\ s.gscSeen /\ s.pendingInit = <<>>) THEN {} ELSE {"C05_DoneImpliesGsc"})
+           R(s, IF Manual(s) \/ s.pc = "done" \/ (s.pc = "loop" /\ s.gscSeen /\ s.pendingInit = <<>>) THEN {} ELSE {"C05_DoneImpliesGsc"})
       [] e.e = "gsc" /\ e.by = "other" -> R(s, {})      \* out-of-protocol consult: nothing is assumed about the position
       [] e.e = "start" -> R(InitAll(s, e.b), {})
       [] e.e \in {"report", "dump"} ->      \* probes at the loop head (before the loop-head consult)
@@ -506,7 +509,8 @@ Step ==
                               THEN "C18_IdleNotOffered" ELSE "C18_IdleAllAsleep"
                          ELSE IF AllAwakeRanWithoutChange(q.st) THEN "C18_IdleConverged"
                          ELSE "C18_NoIdleMetaepoch"} ELSE {}
-           endc == IF e.e = "end" /\ ~C05_CounterEqualsPerformed([s2 EXCEPT !.pc = "done"]) THEN {"C05_CounterEqualsPerformed"} ELSE {}
+           endc == IF e.e = "end" /\ ~Manual(s2) /\ ~C05_CounterEqualsPerformed([s2 EXCEPT !.pc = "done"])
+                   THEN {"C05_CounterEqualsPerformed"} ELSE {}
            hibc == IF e.e = "gsc" /\ e.by = "run" /\ ~C18_HibIffNoSproutInLastRound(s2)
                    THEN {"C18_HibIffNoSproutInLastRound"} ELSE {}
            stall == IF e.e = "abort" THEN {"RunStalled"} ELSE {}
